@@ -213,12 +213,31 @@ fn fulfill_promise(
         mem::take(&mut state_mut.handlers)
     };
 
+    // The handlers have left the promise state, which was what kept their objects reachable:
+    // root all of them while they run (a callback may allocate, and collect, before the later
+    // handlers get their turn)
+    let handlers_guard = interp.heap.create_guard();
+    guard_handlers(&handlers_guard, &handlers);
+
     // Trigger handlers synchronously
     for handler in handlers {
         trigger_handler(interp, handler, &value, true)?;
     }
 
     Ok(())
+}
+
+/// Root the callbacks and result promises of handlers that were taken out of a promise
+fn guard_handlers(guard: &Guard<JsObject>, handlers: &[PromiseHandler]) {
+    for handler in handlers {
+        guard.guard(handler.result_promise.clone());
+        if let Some(JsValue::Object(cb)) = &handler.on_fulfilled {
+            guard.guard(cb.clone());
+        }
+        if let Some(JsValue::Object(cb)) = &handler.on_rejected {
+            guard.guard(cb.clone());
+        }
+    }
 }
 
 /// Reject a promise with a reason
@@ -248,6 +267,10 @@ fn reject_promise(
     if let Some(id) = order_id {
         interp.cancelled_orders.push(id);
     }
+
+    // Root the handlers' objects while earlier handlers run (see fulfill_promise)
+    let handlers_guard = interp.heap.create_guard();
+    guard_handlers(&handlers_guard, &handlers);
 
     // Trigger handlers synchronously
     for handler in handlers {
@@ -816,7 +839,14 @@ pub fn handle_promise_all_fulfill(
         let results = mem::take(&mut *state.results.borrow_mut());
         let result_promise = state.result_promise.cheap_clone();
 
+        // The results have left the shared state that kept them reachable: root them until
+        // the array that will hold them exists
         let guard = interp.heap.create_guard();
+        for value in &results {
+            if let JsValue::Object(obj) = value {
+                guard.guard(obj.clone());
+            }
+        }
         let arr = interp.create_array_from(&guard, results);
         fulfill_promise(interp, &result_promise, JsValue::Object(arr))?;
     }
